@@ -21,7 +21,7 @@ ASSUMPTIONS = ["identity of an argument = realpath(dirname)/basename after strip
                "symlink mtimes and directory mtimes of untouched ancestors are not compared"]
 
 SPELLINGS = ["abs", "rel", "dotrel", "slash1", "slash2", "slash3", "dslash", "sub_dotdot",
-             "lnk_dotdot", "via_link_parent", "dot", "dotdot", "dot_slash", "dotdot_slash",
+             "lnk_dotdot", "via_link_parent", "via_link_gparent", "dot", "dotdot", "dot_slash", "dotdot_slash",
              "e_dot", "e_dotdot", "e_dot_slash", "mountpoint", "trash_ancestor", "nonexistent"]
 ANCESTRAL = ("dot", "dotdot", "dot_slash", "dotdot_slash", "e_dotdot", "mountpoint",
              "trash_ancestor")
@@ -141,6 +141,10 @@ def strategy_(draw, tier):
         elif sp == "via_link_parent":
             nodes.append({"p": "/data/ln%d" % i, "t": "l", "to": d})
             arg = "/data/ln%d/%s" % (i, name)
+        elif sp == "via_link_gparent":
+            # a symlinked directory two levels above the entry: /data/lg<i> -> dirname(d)
+            nodes.append({"p": "/data/lg%d" % i, "t": "l", "to": d.rsplit("/", 1)[0] or "/"})
+            arg = "/data/lg%d/%s/%s" % (i, d.rsplit("/", 1)[1], name)
         elif sp == "dot":
             arg = "."
         elif sp == "dotdot":
